@@ -17,13 +17,13 @@ from . import facts, ir, ptr, repo
 
 LEVEL = "other"
 MANIFEST = {
-    "text": "decides ordering (re-key post-dominates every use of the generator state on all non-null paths), the "
-            "shape of the re-key step (pad; 4 iterations of zero-rate-then-permute-12; absorbed bytes are "
-            "permuted before being overwritten), whole-buffer absorption of system seed and fed data (followed "
-            "through helper functions of the unit), absence of other data sources in the PRNG call tree, the "
-            "16384-byte reseed guard dominating the squeeze, the produced-bytes counter reset only where fresh "
-            "system entropy is drawn, and the documented status values; diffusion of entropy into all later "
-            "output and one-wayness are cryptographic properties of the permutation and are not decided",
+    "text": "decides ordering (re-key post-dominates every use of the generator state on all non-null paths), D1r "
+            "the re-key step maps the sponge state S to (P12 . zero-the-rate)^4 (S) for every state in each state "
+            "layout (interpretation over bit expressions), whole-buffer absorption of system seed and fed data "
+            "(followed through helper functions of the unit), absence of other data sources in the PRNG call "
+            "tree, the 16384-byte reseed guard dominating the squeeze, the produced-bytes counter reset only "
+            "where fresh system entropy is drawn, and the documented status values; diffusion of entropy into all "
+            "later output and one-wayness are cryptographic properties of the permutation and are not decided",
     "note": "trusted: clang lowering, irdump (incl. LLVM scalar evolution for the loop trip count), the "
             "documented contract in src/ascon/random.h transcribed into the status table",
     "technique": "must-typestate dataflow with call summaries (re-keyed / dirty), call-argument matching, "
